@@ -164,6 +164,16 @@ class Stream(ModelMixin["Stream"], Base):
 
     timing_reference = property(get_timing_reference, set_timing_reference)
 
+    def discard_timing_reference_to(self, media_name: str) -> None:
+        """
+        Clears the timing reference if it names the given media file.
+        Must be called when that media file is removed from the stream.
+        """
+        if self.timing_ref is None:
+            return
+        if self.timing_ref.get('media_name') == media_name:
+            self.timing_ref = None
+
     def duration(self) -> datetime.timedelta:
         tref = self.get_timing_reference()
         if tref is not None:
